@@ -72,6 +72,10 @@ Alive == main \notin {"retNil", "retErr"}
 Selecting == main \in {"waitRead", "waitW1", "waitW2", "waitWrite"} \/ (main = "waitHdr" /\ cfg.HdrSel)
 F == cfg.fault
 Fires(kind, at) == F.kind = kind /\ F.at = at /\ ~faulted
+(* The SAM reader (groupSamRecords) groups the records of one query: it hands block j - 1 on only after it has read   *)
+(* record j, so a record it cannot parse is met when one block fewer has been sent than records read.                *)
+Look == IF cfg.Header THEN 1 ELSE 0
+RdFires(n) == F.kind = "rd" /\ ~faulted /\ n = (IF F.at > Look THEN F.at - Look ELSE 0)
 
 (* ---- reader ---------------------------------------------------------------- *)
 ReaderHeader ==   \* cHeader <- header  ||  Main: header := <-cSH
@@ -83,7 +87,7 @@ ReaderHeaderErr ==   \* the stream has no valid header: cerr <- err (blocks unti
   /\ rd' = "blockedErr" /\ faulted' = TRUE
   /\ UNCHANGED <<cfg, nxt, chIn, closedIn, w1, w2, chMid, closedMid, chOut, closedOut, wr, written, main>>
 ReaderSend ==
-  /\ rd = "run" /\ nxt < cfg.N /\ ~Fires("rd", nxt)
+  /\ rd = "run" /\ nxt < cfg.N /\ ~RdFires(nxt)
   /\ \/ /\ cfg.CapIn > 0 /\ Len(chIn) < cfg.CapIn
         /\ chIn' = Append(chIn, nxt) /\ w1' = w1
      \/ /\ cfg.CapIn = 0
@@ -92,7 +96,7 @@ ReaderSend ==
   /\ nxt' = nxt + 1
   /\ UNCHANGED <<cfg, rd, closedIn, w2, chMid, closedMid, chOut, closedOut, wr, written, main, faulted>>
 ReaderErr ==    \* invalid record: cerr <- err
-  /\ rd = "run" /\ nxt < cfg.N /\ Fires("rd", nxt)
+  /\ rd = "run" /\ nxt < cfg.N /\ RdFires(nxt)
   /\ rd' = "blockedErr" /\ faulted' = TRUE
   /\ UNCHANGED <<cfg, nxt, chIn, closedIn, w1, w2, chMid, closedMid, chOut, closedOut, wr, written, main>>
 ReaderDone ==   \* cdone <- true  ||  Main: close(chIn)
